@@ -58,7 +58,7 @@ def check_C02(tier, seed):
     return history_check("C02", tier, seed, gen.ALL_SHAPES, [mon_c02], ["Soa.Props.C02", "Soa.Props.World", "Soa.Props.C01Extracted", "Soa.Lemmas.SkelTie", "Soa.Lemmas.SkelRead.C01", "Soa.Lemmas.LoopTie", "Soa.Lemmas.LoopTieW", "Soa.Lemmas.GenTie"], ["debug", "release"], p_invalid=0.4)
 
 def check_C03(tier, seed):
-    return history_check("C03", tier, seed, gen.ALL_SHAPES, [mon_c03], ["Soa.Props.C03", "Soa.Props.ExtractedCorollaries", "Soa.Lemmas.SkelTie", "Soa.Lemmas.SkelRead.C01", "Soa.Lemmas.LoopTie", "Soa.Lemmas.LoopTieW", "Soa.Lemmas.GenTie"], ["debug", "release"], p_invalid=0.3)
+    return history_check("C03", tier, seed, gen.ALL_SHAPES, [mon_c03], ["Soa.Props.C03", "Soa.Props.ExtractedCorollaries", "Soa.Lemmas.SkelTie", "Soa.Lemmas.SkelRead.C01", "Soa.Lemmas.LoopTie", "Soa.Lemmas.LoopTieW", "Soa.Lemmas.RetainConserve", "Soa.Lemmas.GenTie"], ["debug", "release"], p_invalid=0.3)
 
 def check_C08(tier, seed):
     return history_check("C08", tier, seed, gen.DROP_SHAPES, [mon_c08], ["Soa.Props.C08", "Soa.Props.ExtractedCorollaries", "Soa.Lemmas.SkelTie", "Soa.Lemmas.SkelRead.C01", "Soa.Lemmas.LoopTie", "Soa.Lemmas.LoopTieW", "Soa.Lemmas.GenTie"], ["debug", "release"])
